@@ -16,7 +16,7 @@ import numpy as np
 from .. import common as C
 
 PROP = "C18"
-GEN_REGIONS: List[str] = []
+GEN_REGIONS: List[str] = ["Noise"]
 THEOREMS = {
     "SpecKitV.Lemmas.Bilinear": ["bilinear_section", "bilinear_dc", "bilinear_nyquist"],
     # FFT synthesiser index logic, band mask, corner placement (file present and building at hand-over; names are the ones it contains)
@@ -786,6 +786,9 @@ def correspondence(ctx) -> C.Part:
         bad_c = []
         for i in range(n_real):
             m0, m1, m2 = drv.floats(f"coeffs {C.f2h(fs)} {C.f2h(cap[0][i])} {C.f2h(cap[1][i])}")
+            g0, g1, g2 = drv.floats(f"gencoeffs {C.f2h(cap[0][i])} {C.f2h(cap[1][i])} {C.f2h(fs)}")      # translated _calc_filter_coeffs
+            if not (abs(g0 - m0) <= 1e-13 * max(1.0, abs(m0)) and abs(g1 - m1) <= 1e-13 * max(1.0, abs(m0)) and abs(g2 - m2) <= 1e-13 * max(1.0, abs(m0))):
+                P.disagreements.append({"op": "gencoeffs", "generated": [g0, g1, g2], "model": [m0, m1, m2], "case": case})
             P.cases += 1
             sc = max(1.0, abs(m0))
             if not (abs(m0 - a0[i]) <= 1e-12 * sc and abs(m1 - a1[i]) <= 1e-12 * sc and abs(-m2 - b1c[i]) <= 1e-12 * sc and float(g._b_coeffs[i, 0]) == 1.0):
